@@ -426,6 +426,10 @@ def check(ctx: Ctx):
     check_zero_helper(ctx)
     check_pipeline_typestate(ctx)
     check_calculate_all(ctx)
+    # "fp and fn are the instance counts": the final result receives the pair's own counts (R01.2)
+    from . import c01, c03
+
+    c03._guarded(ctx, "R01.2", c01.check_pipeline)
 
 
 _E = "panoptica/utils/edge_case_handling.py"
